@@ -14,6 +14,7 @@ choice `c : Option V` (`none` = not selected).  `Term.eval` (in `PubgrubProofs/D
 meaning quoted above.
 -/
 import PubgrubProofs.TermLaws
+import PubgrubProofs.TermAnyOrder
 
 set_option linter.unusedSectionVars false
 namespace Pubgrub.C11
@@ -70,5 +71,46 @@ theorem C11_F2_witness :
 
 /-! Non-vacuity: the extremes are valid terms. -/
 example : (Term.any : Term S).Valid ∧ (Term.empty : Term S).Valid := ⟨Term.valid_any, Term.valid_empty⟩
+
+/-! ### `Range V` over ANY linear order: evaluation over the points of the dense completion
+
+`Term.evalD t c` evaluates a term over `Range V` on a choice `c : Option (Dense V)` (`Dense V = V ×ₗ ℚ`; on
+the versions of `V` themselves it is the plain evaluation, `C11_range_evalD_some`).  Over a discrete order
+this is the right notion of "every concrete choice" — `1 < v < 2` has no member in `ℕ` but is not the
+empty set for `subset_of` / `is_disjoint`. -/
+section AnyOrder
+variable {V : Type} [LinearOrder V] [Nonempty V]
+
+theorem C11_range_evalD_some (t : Term (Range V)) (v : V) :
+    t.evalD (some (Dense.ι v)) = t.eval (some v) ∧ t.evalD none = t.eval none :=
+  Term.evalD_some t v
+
+theorem C11_range_operations (t1 t2 : Term (Range V)) (h1 : t1.WFR) (h2 : t2.WFR)
+    (c : Option (Dense V)) :
+    (Term.negate t1).evalD c = !t1.evalD c ∧
+    (Term.intersection t1 t2).evalD c = (t1.evalD c && t2.evalD c) ∧
+    (Term.union t1 t2).evalD c = (t1.evalD c || t2.evalD c) :=
+  term_operations_any_order t1 t2 h1 h2 c
+
+theorem C11_range_closed (t1 t2 : Term (Range V)) (h1 : t1.WFR) (h2 : t2.WFR) :
+    (Term.negate t1).WFR ∧ (Term.intersection t1 t2).WFR ∧ (Term.union t1 t2).WFR :=
+  term_closed_any_order t1 t2 h1 h2
+
+theorem C11_range_tests (t1 t2 : Term (Range V)) (h1 : t1.WFR) (h2 : t2.WFR) :
+    (Term.subsetOf t1 t2 = true ↔ ∀ c : Option (Dense V), t1.evalD c = true → t2.evalD c = true) ∧
+    (Term.isDisjoint t1 t2 = true ↔ ∀ c : Option (Dense V), ¬ (t1.evalD c = true ∧ t2.evalD c = true)) :=
+  term_tests_any_order t1 t2 h1 h2
+
+theorem C11_range_relation (t o : Term (Range V)) (h1 : t.WFR) (h2 : o.WFR) :
+    (Term.relationWith t o = .satisfied ↔ ∀ c : Option (Dense V), o.evalD c = true → t.evalD c = true) ∧
+    (Term.relationWith t o = .contradicted ↔
+      (¬ ∀ c : Option (Dense V), o.evalD c = true → t.evalD c = true) ∧
+      ∀ c : Option (Dense V), ¬ (t.evalD c = true ∧ o.evalD c = true)) ∧
+    (Term.relationWith t o = .inconclusive ↔
+      (¬ ∀ c : Option (Dense V), o.evalD c = true → t.evalD c = true) ∧
+      ¬ ∀ c : Option (Dense V), ¬ (t.evalD c = true ∧ o.evalD c = true)) :=
+  term_relation_any_order t o h1 h2
+
+end AnyOrder
 
 end Pubgrub.C11
